@@ -47,11 +47,17 @@ def run_impl(sc):
         if n == 16 and draws:
             return draws.pop(0)
         return real_urandom(n)
-    net = FakeNet([{"addrs": c["addrs"], "script": [("D", bytes.fromhex(e[1])) if e[0] == "D" else (e[0],) for e in c.get("script", [])]}
+    net = FakeNet([dict({"addrs": c["addrs"], "script": [("D", bytes.fromhex(e[1])) if e[0] == "D" else (e[0],) for e in c.get("script", [])]},
+                        **({"fams": c["fams"]} if c.get("fams") else {}))
                    for c in sc.get("net", [])])
     prepared = None
     if sc.get("prepared") is not None:
         prepared = Sock([("D", bytes.fromhex(e[1])) if e[0] == "D" else (e[0],) for e in sc["prepared"]])
+    import logging
+    websocket.enableTrace(bool(sc.get("trace")), handler=logging.NullHandler())
+    saved_tls = _http._ssl_socket
+    if sc.get("fake_tls"):
+        _http._ssl_socket = lambda sock, sslopt, hostname: sock          # TLS itself is C11's subject
     saved = (_http.socket, os.urandom, _handshake.CookieJar)
     _http.socket = net
     os.urandom = fake_urandom
@@ -75,6 +81,8 @@ def run_impl(sc):
             res = "raise:" + c.replace("BadStatus:None", "BadStatus:-1")
     finally:
         _http.socket, os.urandom, _handshake.CookieJar = saved
+        _http._ssl_socket = saved_tls
+        websocket.enableTrace(False)
     socks = ([prepared] if prepared is not None else []) + [s for conn in net.opened for s in conn if s.outcome == "A"]
     reqs = []
     for s in socks:
